@@ -9,6 +9,7 @@
 #include <etl/vector.hpp>
 
 #include <algorithm>
+#include <new>
 #include <string>
 #include <type_traits>
 #include <vector>
@@ -101,7 +102,8 @@ struct SV {
     using E = etl::static_vector<T, N>;
     vf::Chooser& ch;
     M m;
-    E e;
+    vf::Buf<E> ebuf{1}; // the subject lives alone in an exact-size heap block: an overrun of the object itself is an ASan report
+    E& e;
     char subj[80];
     char stcls[24];
 
@@ -110,7 +112,9 @@ struct SV {
         x.clear();
         for (int k : v) { x.emplace_back(mkT(k)); }
     }
-    SV(vf::Chooser& c, M const& start) : ch(c), m(start)
+    SV(SV const&) = delete;
+    ~SV() { e.~E(); }
+    SV(vf::Chooser& c, M const& start) : ch(c), m(start), e(*::new (static_cast<void*>(ebuf.data())) E())
     {
         std::snprintf(subj, sizeof subj, "static_vector<%s,%zu>", TNAME, N);
         fill(e, start);
